@@ -21,6 +21,19 @@ import z3
 
 from vf import symrun as S, core, spec
 from vf.core import ob, discharge, Proof
+from vf import backends as BK
+
+
+def cert_discharge(oid, insts, goal, cex_builder=None, fallback_hyps=None):
+    """goal (an equality) follows from the lemma instances `insts` (equalities) by adding them up: checked as an
+    explicit polynomial identity  (goal.lhs - goal.rhs) - sum_i (inst_i.lhs - inst_i.rhs) == 0  (sound over any ring)."""
+    if insts:
+        v = BK.cert_check(insts, goal, [(z3.RealVal(1), h) for h in insts])
+        if v.status == "discharged":
+            return ob(oid, "discharged", engine="symrun", backend="cert", secs=v.secs,
+                      sample={"goal": core.short(goal), "lemma_instances": len(insts)})
+    return discharge(oid, fallback_hyps if fallback_hyps is not None else insts, goal, backends=("z3",), timeout_ms=3000,
+                     cex_builder=cex_builder)
 from . import xmap_harness as H
 
 REL = "gaddlemaps/_exchage_map.py"
@@ -330,7 +343,7 @@ def closest_stub_factory(c):
     return stub, picks
 
 
-def glue_paths(n, edges, m, second=None, junk_frames=False, max_paths=300):
+def glue_paths(n, edges, m, second=None, junk_frames=False, max_paths=300, extra_pre=(), also_first=False, small=None):
     """Runs the real ExchangeMap(ref, tgt, s) and then __call__ on (a) the same configuration (second=None),
     (b) a configuration produced by second(c, P) -> object array.  Returns (paths, ref, tgt)."""
     X = _X()
@@ -345,6 +358,10 @@ def glue_paths(n, edges, m, second=None, junk_frames=False, max_paths=300):
         with st.installed(), patched_attr(X.ExchangeMap, "_find_closest_ref", stub):
             xm = X.ExchangeMap(ref, tgt, S.real("s"))
             n_cb_init = len(st.cb_calls)
+            out_first = None
+            if also_first:
+                out_first = S.terms(xm(ref).atoms_positions)
+            n_cb_first = len(st.cb_calls)
             ref_before = S.terms(ref.atoms_positions)
             tgt_before = S.terms(tgt.atoms_positions)
             if junk_frames:
@@ -365,9 +382,10 @@ def glue_paths(n, edges, m, second=None, junk_frames=False, max_paths=300):
             shares = any(np.shares_memory(a1.position, a2.position) for a1 in res._residues[0] for mol in (tgt, arg, ref)
                          for r_ in mol._residues for a2 in r_)
         return {"out": out, "eq": dict(xm._equivalences), "stubs": st, "n_cb_init": n_cb_init, "frame": frame_ok,
+                "out_first": out_first, "n_cb_first": n_cb_first, "xm": xm,
                 "shares": shares, "res": res, "arg": arg, "picks": picks}
 
-    pre = [SV > 0, SV <= 2] + distinct_pre("p", n)
+    pre = [SV > 0, SV <= 2] + distinct_pre("p", n) + list(extra_pre)
     paths = S.explore(run, assumptions=pre, max_paths=max_paths, feas_timeout_ms=1000)
     return paths, ref, tgt
 
@@ -453,15 +471,17 @@ def task_law(prop, part, nparts, tier, seed):
             st = r["stubs"]
             init_calls = st.cb_calls[:r["n_cb_init"]]
             call_calls = st.cb_calls[r["n_cb_init"]:]
-            exp_args = [Pt("p", a) + Pt("p", sorted(nb[a])[0]) + Pt("p", sorted(nb[a])[1]) for a in anchors]
+            # C01 only needs: the anchors are exactly the atoms with >= 2 bonded neighbours (which neighbours build the
+            # frame is pinned down by C03, not here)
             for which, calls in (("construction", init_calls), ("call", call_calls)):
-                got = [c_[0] for c_ in calls]
-                good = len(got) == len(exp_args) and all(all(x.eq(y) for x, y in zip(g_, e_)) for g_, e_ in zip(got, exp_args))
+                got = [c_[0][:3] for c_ in calls]
+                exp = [Pt("p", a) for a in anchors]
+                good = len(got) == len(exp) and all(all(x.eq(y) for x, y in zip(g_, e_)) for g_, e_ in zip(got, exp))
                 if not good:
-                    fails.append(ob(f"{tag}/ensures.frames_of_atoms_with_two_bonds_from_two_lowest_numbered_neighbours[{which}]/{sid}",
+                    fails.append(ob(f"{tag}/ensures.frames_exactly_for_atoms_with_two_bonded_neighbours[{which}]/{sid}",
                                     "refuted", engine="symrun", backend="structure",
-                                    reason=f"calcule_base called on {len(got)} triples; expected anchors {anchors}",
-                                    cex={"fn": "local", "n": n, "edges": [list(e) for e in edges], "m": m, "signature": "frames"}))
+                                    reason=f"calcule_base called on {len(got)} triples; atoms with >= 2 bonds: {anchors}",
+                                    cex={"fn": "law", "n": n, "edges": [list(e) for e in edges], "m": m, "signature": "frames"}))
             if fails:
                 break
             if set(r["eq"].values()) - set(anchors) or len(r["eq"]) != m:
@@ -485,8 +505,8 @@ def task_law(prop, part, nparts, tier, seed):
                 inst = [lhs[c] == rhs[c] for c in range(3)] if pre_ok else []
                 goal = z3.And(*[r["out"][3 * j + c] == rhs[c] for c in range(3)])
                 v = discharge(f"{tag}/ensures.target_atom_at_anchor_plus_s_times_offset[{j}]/{sid}/path{pi}", inst, goal,
-                              backends=("z3",), timeout_ms=10000, cex_builder=cexb, full_hyps=hy)
-                if v["status"] == "undecided":
+                              backends=("z3",), timeout_ms=3000, cex_builder=cexb)
+                if v["status"] == "undecided" and not pre_ok:
                     v = discharge(f"{tag}/ensures.target_atom_at_anchor_plus_s_times_offset[{j}]/{sid}/path{pi}", _sel_frames(hy, [F]), goal,
                                   backends=("gb", "z3"), timeout_ms=20000, cex_builder=cexb, full_hyps=hy)
                 n_vc += 1
@@ -495,7 +515,7 @@ def task_law(prop, part, nparts, tier, seed):
                 # s = 1 reproduces the target
                 goal1 = z3.And(*[r["out"][3 * j + c] == q[c] for c in range(3)])
                 v = discharge(f"{tag}/ensures.s_equal_1_reproduces_target[{j}]/{sid}/path{pi}", inst + [SV == 1], goal1,
-                              backends=("z3",), timeout_ms=10000, cex_builder=cexb, full_hyps=hy + [SV == 1])
+                              backends=("z3",), timeout_ms=3000, cex_builder=cexb)
                 n_vc += 1
                 if v["status"] != "discharged":
                     fails.append(v)
@@ -516,6 +536,394 @@ def task_law(prop, part, nparts, tier, seed):
             hint += [SV == z3.Q(1, 2)] + [z3.Real(f"q_0_{c_}") == 5 for c_ in range(3)] + [z3.Real(f"p_{i_}_{c_}") == i_ + c_ for i_ in range(n) for c_ in range(3)]
             out.append(core.must_fail(f"{tag}/guard.must-fail/{sid}", _sel_frames(p0.hyps()),
                                       p0.result["out"][0] == Pt("q", 0)[0], timeout_ms=4000, hint=hint))
+    return out
+
+
+_LEM2 = {}
+
+
+def norm_lemmas(prefix):
+    """Lemmas over the calcule_base contract (generic symbols, proved once per process):
+       N1  F' orthonormal rows:  |sum_r c_r F'_r|^2 = |c|^2
+       N2  F' orthonormal rows:  (sum_r c_r F'_r) . F'_0 = c_0
+       N3  F  orthonormal rows and columns:  |s F w|^2 = s^2 |w|^2"""
+    if "obs" not in _LEM2:
+        F = [[z3.Real(f"nl_f{r}{c}") for c in range(3)] for r in range(3)]
+        cc = [z3.Real(f"nl_c{k}") for k in range(3)]
+        w = [z3.Real(f"nl_w{k}") for k in range(3)]
+        s_ = z3.Real("nl_s")
+        hy = H.frame_hyps(F) + H.columns_orthonormal(F)
+        comb = _comb(F, cc)
+        obs = [discharge(f"{prefix}/lemma.N1_norm_of_combination_of_frame_vectors", hy, spec.norm2(comb) == spec.norm2(cc),
+                         backends=("gb", "z3"), engine="symrun", timeout_ms=30000),
+               discharge(f"{prefix}/lemma.N2_component_along_first_frame_vector", hy, spec.dot(comb, F[0]) == cc[0],
+                         backends=("gb", "z3"), engine="symrun", timeout_ms=30000),
+               discharge(f"{prefix}/lemma.N3_projection_scales_norm_by_s", hy,
+                         spec.norm2([s_ * spec.dot(F[r], w) for r in range(3)]) == s_ * s_ * spec.norm2(w),
+                         backends=("gb", "z3"), engine="symrun", timeout_ms=30000)]
+        _LEM2["obs"] = obs
+        _LEM2["ok"] = all(o["status"] == "discharged" for o in obs)
+    return _LEM2["obs"], _LEM2["ok"]
+
+
+def _comb(F, cc):
+    return [sum((cc[r] * F[r][k] for r in range(1, 3)), cc[0] * F[0][k]) for k in range(3)]
+
+
+def _proj(F, w, s_):
+    return [s_ * spec.dot(F[r], w) for r in range(3)]
+
+
+def _frames_for(st, n_init, anchor_pt_init, anchor_pt_call):
+    """(construction frame, call frame) of an anchor"""
+    F0 = F1 = None
+    for (pts9, F, _p) in st.cb_calls[:n_init]:
+        if all(x.eq(y) for x, y in zip(pts9[:3], anchor_pt_init)):
+            F0 = F
+    for (pts9, F, _p) in st.cb_calls[n_init:]:
+        if all(z3.simplify(x - y).eq(z3.RealVal(0)) for x, y in zip(pts9[:3], anchor_pt_call)):
+            F1 = F
+    return F0, F1
+
+
+def _second_fresh(c, ref):
+    return S.mat("pp", len(ref))
+
+
+def task_deform(prop, part, nparts, tier, seed):
+    """C03: arbitrary new conformation P' of the reference"""
+    out = []
+    tag = f"{prop}/ExchangeMap.__call__"
+    lem_obs, lemma_ok = norm_lemmas(f"{prop}/lemma")
+    if part == 0:
+        out += lem_obs
+    for (n, edges, m) in structures(tier, seed)[part::nparts]:
+        sid = _sid(n, edges, m)
+        try:
+            paths, ref, tgt = glue_paths(n, edges, m, second=_second_fresh)
+        except S.SymError as e:
+            out.append(ob(f"{tag}/symbolic-run/{sid}", "undecided", engine="symrun", reason=str(e)))
+            continue
+        cexb = _law_cex(n, edges, m, "deform")
+        anchors = H.degree2(n, edges)
+        nb = H.neighbours(n, edges)
+        fails, n_vc = [], 0
+        for pi, p_ in enumerate(paths):
+            if p_.exc is not None:
+                fails.append(ob(f"{tag}/no-exception/{sid}", "refuted", engine="symrun", reason=f"real code raises {p_.exc!r}",
+                                cex={"fn": "deform", "n": n, "edges": [list(e) for e in edges], "m": m, "signature": "raises"}))
+                break
+            r = p_.result
+            hy = p_.hyps()
+            st = r["stubs"]
+            # frames: anchor + its two lowest-numbered bonded atoms, at construction (P) and at the call (P')
+            for which, base, calls in (("construction", "p", st.cb_calls[:r["n_cb_init"]]), ("call", "pp", st.cb_calls[r["n_cb_init"]:])):
+                exp = [Pt(base, a) + Pt(base, sorted(nb[a])[0]) + Pt(base, sorted(nb[a])[1]) for a in anchors]
+                got = [c_[0] for c_ in calls]
+                good = len(got) == len(exp) and all(all(x.eq(y) for x, y in zip(g_, e_)) for g_, e_ in zip(got, exp))
+                if not good:
+                    fails.append(ob(f"{tag}/ensures.frame_from_anchor_and_its_two_lowest_numbered_bonded_atoms[{which}]/{sid}", "refuted",
+                                    engine="symrun", backend="structure", reason=f"calcule_base called on {len(got)} triples, anchors {anchors}",
+                                    cex={"fn": "deform", "n": n, "edges": [list(e) for e in edges], "m": m, "signature": "frames"}))
+            if fails:
+                break
+            outv = [[r["out"][3 * j + c] for c in range(3)] for j in range(m)]
+            for j in range(m):
+                k = r["eq"][j]
+                a, a2, q = Pt("p", k), Pt("pp", k), Pt("q", j)
+                F0, F1 = _frames_for(st, r["n_cb_init"], a, a2)
+                if F0 is None or F1 is None:
+                    fails.append(ob(f"{tag}/ensures.anchor_frame_recomputed_from_argument/{sid}/path{pi}", "refuted", engine="symrun",
+                                    cex={"fn": "deform", "n": n, "edges": [list(e) for e in edges], "m": m, "signature": "frames"}))
+                    continue
+                # locality: the mapped atom is a function of the new positions of anchor, and its two frame neighbours only
+                allowed = {f"pp_{i}_{c}" for i in [k] + sorted(nb[k])[:2] for c in range(3)}
+                used = {nm for x in outv[j] for nm in core.free_consts(x) if nm.startswith("pp_")}
+                good = used <= allowed
+                n_vc += 1
+                if not good:
+                    fails.append(ob(f"{tag}/ensures.depends_only_on_anchor_and_its_two_frame_neighbours[{j}]/{sid}/path{pi}", "refuted",
+                                    engine="symrun", backend="free-symbols", reason=f"mapped atom {j} depends on {sorted(used - allowed)}",
+                                    cex={"fn": "deform", "n": n, "edges": [list(e) for e in edges], "m": m, "signature": "locality"}))
+                w = spec.sub(q, a)
+                pr = _proj(F0, w, SV)
+                inst = []
+                if lemma_ok and _has_all(hy, H.frame_hyps(F0) + H.columns_orthonormal(F0) + H.frame_hyps(F1)):
+                    inst = [spec.norm2(_comb(F1, pr)) == spec.norm2(pr), spec.norm2(pr) == SV * SV * spec.norm2(w)]
+                goal = spec.norm2(spec.sub(outv[j], a2)) == SV * SV * spec.norm2(w)
+                v = cert_discharge(f"{tag}/ensures.distance_to_anchor_is_s_times_construction_distance[{j}]/{sid}/path{pi}", inst, goal,
+                                   cex_builder=cexb)
+                n_vc += 1
+                if v["status"] != "discharged":
+                    fails.append(v)
+                for i in range(j):
+                    if r["eq"][i] != k:
+                        continue
+                    w2 = spec.sub(Pt("q", i), q)
+                    pr2 = _proj(F0, w2, SV)
+                    inst2 = []
+                    if inst:
+                        inst2 = [spec.norm2(_comb(F1, pr2)) == spec.norm2(pr2), spec.norm2(pr2) == SV * SV * spec.norm2(w2)]
+                    goal2 = spec.norm2(spec.sub(outv[i], outv[j])) == SV * SV * spec.norm2(w2)
+                    v = cert_discharge(f"{tag}/ensures.atoms_sharing_an_anchor_keep_mutual_distance_times_s[{i},{j}]/{sid}/path{pi}", inst2, goal2,
+                                       cex_builder=cexb)
+                    n_vc += 1
+                    if v["status"] != "discharged":
+                        fails.append(v)
+            for who, eqs_ in r["frame"].items():
+                v = discharge(f"{tag}/frame.{who}_coordinates_unchanged/{sid}/path{pi}", hy, z3.And(*eqs_), backends=("z3",), cex_builder=cexb)
+                n_vc += 1
+                if v["status"] != "discharged":
+                    fails.append(v)
+        if fails:
+            out += fails
+        else:
+            out.append(ob(f"{tag}/ensures.local_and_shape_preserving/{sid}", "discharged", engine="symrun", backend="gb+z3",
+                          evaluations=n_vc, nontrivial=n_vc, sample={"n": n, "edges": edges, "m": m, "paths": len(paths), "vcs": n_vc}))
+    return out
+
+
+RM = [[z3.Real(f"R_{i}_{j}") for j in range(3)] for i in range(3)]
+TV = [z3.Real(f"t_{k}") for k in range(3)]
+
+
+def _second_rigid(c, ref):
+    P = ref.atoms_positions
+    R = S.mat("R", 3, 3)
+    t = S.vec("t")
+    return np.dot(P, R.T) + t
+
+
+def _rot(v):
+    return [spec.dot(RM[c], v) for c in range(3)]
+
+
+def _moved(pt):
+    return [x + TV[c] for c, x in enumerate(_rot(pt))]
+
+
+_LEM3 = {}
+
+
+def so3_lemmas(prefix):
+    """SO(3) lemma (generic symbols, once per process): |R d|^2 = |d|^2; and the logical lemma I3"""
+    if "obs" not in _LEM3:
+        d = [z3.Real(f"so_d{k}") for k in range(3)]
+        hy = spec.is_rotation_hyps(RM)
+        obs = [discharge(f"{prefix}/lemma.rotation_preserves_norm", hy, spec.norm2(_rot(d)) == spec.norm2(d), backends=("gb", "z3"),
+                         engine="symrun", timeout_ms=30000)]
+        A, B_, C, D = z3.Reals("i3_A i3_B i3_C i3_D")
+        obs.append(discharge(f"{prefix}/lemma.I3_distance_from_axis_follows_from_I1_and_I2", [A == B_, C == D], A - C * C == B_ - D * D,
+                             backends=("z3",), engine="symrun"))
+        _LEM3["obs"] = obs
+        _LEM3["ok"] = all(o["status"] == "discharged" for o in obs)
+    return _LEM3["obs"], _LEM3["ok"]
+
+
+def _rigid_invariants(tag, sid, pi, hy, F0, F1, v_first, v_second, pr, lemma_ok, cexb, with_axis=True):
+    """I1 distance to the anchor, I2 coordinate along the axis (first frame vector), for any two orthonormal frames
+    that restore the same stored projection pr: v = sum_r pr_r F_r"""
+    out = []
+    ok = lemma_ok and _has_all(hy, H.frame_hyps(F0) + H.frame_hyps(F1))
+    i1 = [spec.norm2(_comb(F1, pr)) == spec.norm2(pr), spec.norm2(_comb(F0, pr)) == spec.norm2(pr)] if ok else []
+    goal = spec.norm2(v_second) == spec.norm2(v_first)
+    out.append(_cert_pm(f"{tag}/ensures.distance_to_anchor_preserved/{sid}/path{pi}", i1, goal, cexb))
+    if with_axis:
+        i2 = [spec.dot(_comb(F1, pr), F1[0]) == pr[0], spec.dot(_comb(F0, pr), F0[0]) == pr[0]] if ok else []
+        goal = spec.dot(v_second, F1[0]) == spec.dot(v_first, F0[0])
+        out.append(_cert_pm(f"{tag}/ensures.coordinate_along_axis_preserved/{sid}/path{pi}", i2, goal, cexb))
+    return out
+
+
+def _cert_pm(oid, insts, goal, cexb):
+    """goal = inst[0] - inst[1] (as polynomial identity)"""
+    if len(insts) == 2:
+        v = BK.cert_check(insts, goal, [(z3.RealVal(1), insts[0]), (z3.RealVal(-1), insts[1])])
+        if v.status == "discharged":
+            return ob(oid, "discharged", engine="symrun", backend="cert", secs=v.secs, sample={"goal": core.short(goal)})
+    return discharge(oid, insts, goal, backends=("z3",), timeout_ms=3000, cex_builder=cexb)
+
+
+def task_rigid(prop, part, nparts, tier, seed):
+    """C02: map(R ref + t) vs R map(ref) + t for references of >= 3 atoms"""
+    out = []
+    tag = f"{prop}/ExchangeMap.__call__"
+    l1, ok1 = norm_lemmas(f"{prop}/lemma")
+    l2, ok2 = so3_lemmas(f"{prop}/lemma")
+    if part == 0:
+        out += l1 + l2
+    so3 = spec.is_rotation_hyps(RM)
+    for si, (n, edges, m) in enumerate(structures(tier, seed)[part::nparts]):
+        sid = _sid(n, edges, m)
+        axis_script = True
+        try:
+            paths, ref, tgt = glue_paths(n, edges, m, second=_second_rigid, also_first=True, extra_pre=so3)
+        except S.SymError as e:
+            out.append(ob(f"{tag}/symbolic-run/{sid}", "undecided", engine="symrun", reason=str(e)))
+            continue
+        cexb = _law_cex(n, edges, m, "rigid")
+        nb = H.neighbours(n, edges)
+        fails, n_vc = [], 0
+        for pi, p_ in enumerate(paths):
+            if p_.exc is not None:
+                fails.append(ob(f"{tag}/no-exception/{sid}", "refuted", engine="symrun", reason=f"real code raises {p_.exc!r}",
+                                cex={"fn": "rigid", "n": n, "edges": [list(e) for e in edges], "m": m, "signature": "raises"}))
+                break
+            r = p_.result
+            hy = p_.hyps()
+            st = r["stubs"]
+            for j in range(m):
+                k = r["eq"][j]
+                a, q = Pt("p", k), Pt("q", j)
+                a2 = _moved(a)
+                F0 = F1 = None
+                for (pts9, F, _p) in st.cb_calls[r["n_cb_init"]:r["n_cb_first"]]:
+                    if all(x.eq(y) for x, y in zip(pts9[:3], a)):
+                        F0 = F
+                idx1 = None
+                for ci, (pts9, F, _p) in enumerate(st.cb_calls[r["n_cb_first"]:]):
+                    if all(z3.simplify(x - y).eq(z3.RealVal(0)) for x, y in zip(pts9[:3], a2)):
+                        F1, idx1 = F, r["n_cb_first"] + ci
+                Fc = _frame_of(st, a, which="first")
+                if F0 is None or F1 is None or Fc is None:
+                    fails.append(ob(f"{tag}/ensures.anchor_frame_recomputed_from_argument/{sid}/path{pi}", "refuted", engine="symrun",
+                                    cex={"fn": "rigid", "n": n, "edges": [list(e) for e in edges], "m": m, "signature": "frames"}))
+                    continue
+                pr = _proj(Fc, spec.sub(q, a), SV)
+                o1 = [r["out_first"][3 * j + c] for c in range(3)]
+                o2 = [r["out"][3 * j + c] for c in range(3)]
+                # (i) generic anchors: with the equivariance clause of calcule_base (frame rows rotate with the points)
+                equiv = {(rr, c): F1[rr][c] == spec.dot(RM[c], F0[rr]) for rr in range(3) for c in range(3)}
+                mo1 = _moved(o1)
+                okc = True
+                tcert = 0.0
+                for c in range(3):
+                    # certificate: o2_c - (R o1 + t)_c = sum_r pr_r * (F1_rc - (R F0_r)_c)
+                    vv = BK.cert_check(list(equiv.values()), o2[c] == mo1[c], [(pr[rr], equiv[(rr, c)]) for rr in range(3)])
+                    tcert += vv.secs
+                    okc = okc and vv.status == "discharged"
+                oid = f"{tag}/ensures.commutes_with_rigid_motion(generic anchor, by calcule_base equivariance)[{j}]/{sid}/path{pi}"
+                if okc:
+                    v = ob(oid, "discharged", engine="symrun", backend="cert", secs=tcert)
+                else:
+                    v = discharge(oid, list(equiv.values()), z3.And(*[o2[c] == mo1[c] for c in range(3)]), backends=("z3",),
+                                  timeout_ms=3000, cex_builder=cexb)
+                n_vc += 1
+                if v["status"] != "discharged":
+                    fails.append(v)
+                # (ii) every anchor, collinear or not: invariants that need orthonormality only
+                for v in _rigid_invariants(tag, sid, f"{pi}[{j}]", hy, F0, F1, spec.sub(o1, a), spec.sub(o2, a2), pr, ok1, cexb):
+                    n_vc += 1
+                    if v["status"] != "discharged":
+                        fails.append(v)
+                # (iii) the axis (first frame vector) itself moves rigidly: F1_0 = R F0_0
+                r0 = st.cb_norms[[i for i, c_ in enumerate(st.cb_calls) if c_[1] is F0][0]]
+                r1 = st.cb_norms[idx1]
+                d = spec.sub(Pt("p", sorted(nb[k])[1]), a)
+                if ok2 and r0 is not None and r1 is not None and axis_script:
+                    n2 = sorted(nb[k])[1]
+                    ds0 = spec.sub(Pt("p", n2), a)                       # third - first point at P (as the stub formed it)
+                    i1 = [i for i, c_ in enumerate(st.cb_calls) if c_[1] is F1][0]
+                    pts1 = st.cb_calls[i1][0]
+                    ds1 = [pts1[6 + c] - pts1[c] for c in range(3)]      # third - first point at R P + t
+                    G0, G1 = z3.Real("ghost_d0sq"), z3.Real("ghost_d1sq")
+                    gdefs = [G0 == spec.norm2(ds0), G1 == spec.norm2(ds1)]
+                    prf = Proof(f"{tag}/ensures.axis_moves_rigidly[{j}]/{sid}/path{pi}", hy + gdefs, cex_builder=cexb, timeout_ms=5000)
+                    binst = spec.norm2(_rot(ds0)) == spec.norm2(ds0)
+                    prf.have("rotation_preserves_this_difference", binst, by=so3, backends=("gb",))
+                    # G1 - G0 = (G1 - |ds1|^2) + (|ds1|^2 - |R ds0|^2)[identically 0] + (|R ds0|^2 - |ds0|^2) + (|ds0|^2 - G0)
+                    prf.have_cert("squared_lengths_equal", G1 == G0, [(z3.RealVal(1), gdefs[1]), (z3.RealVal(1), binst), (z3.RealVal(-1), gdefs[0])])
+                    prf.have("r0_sq", r0 * r0 == G0, by=[r0 * r0 == spec.norm2(ds0), gdefs[0]], backends=("z3",))
+                    prf.have("r1_sq", r1 * r1 == G1, by=[r1 * r1 == spec.norm2(ds1), gdefs[1]], backends=("z3",))
+                    prf.have("same_length", r1 == r0, by=[r0 > 0, r1 > 0], use=["squared_lengths_equal", "r0_sq", "r1_sq"], backends=("z3", "nlsat"))
+                    lin = [F0[0][c] * r0 == ds0[c] for c in range(3)] + [F1[0][c] * r1 == ds1[c] for c in range(3)]
+                    prf.have("r0_nonzero", r0 != 0, by=[r0 > 0], backends=("z3",))
+                    prf.have("first_vector_rotates", z3.And(*[F1[0][c] == spec.dot(RM[c], F0[0]) for c in range(3)]),
+                             by=lin, use=["same_length", "r0_nonzero"], backends=("gb", "z3"))
+                    for o_ in prf.obs:
+                        n_vc += 1
+                        if o_["status"] != "discharged":
+                            fails.append(o_)
+            for who, eqs_ in r["frame"].items():
+                v = discharge(f"{tag}/frame.{who}_coordinates_unchanged/{sid}/path{pi}", hy, z3.And(*eqs_), backends=("z3",), cex_builder=cexb)
+                n_vc += 1
+                if v["status"] != "discharged":
+                    fails.append(v)
+        if fails:
+            out += fails
+        else:
+            out.append(ob(f"{tag}/ensures.commutes_with_rigid_motion/{sid}", "discharged", engine="symrun", backend="z3+gb+cert",
+                          evaluations=n_vc, nontrivial=n_vc, sample={"n": n, "edges": edges, "m": m, "paths": len(paths), "vcs": n_vc}))
+    return out
+
+
+def task_history(prop, part, nparts, tier, seed):
+    """C04 single-step obligation: from ANY prior content of the per-anchor frames (fresh junk symbols = any call history),
+    __call__(arg) returns the value determined by the construction-time data and arg alone; frames of the argument,
+    the construction molecules untouched; result is a new object."""
+    out = []
+    tag = f"{prop}/ExchangeMap.__call__"
+    for (n, edges, m) in structures(tier, seed)[part::nparts]:
+        sid = _sid(n, edges, m)
+        try:
+            paths, ref, tgt = glue_paths(n, edges, m, second=_second_fresh, junk_frames=True)
+        except S.SymError as e:
+            out.append(ob(f"{tag}/symbolic-run/{sid}", "undecided", engine="symrun", reason=str(e)))
+            continue
+        cexb = _law_cex(n, edges, m, "history")
+        nb = H.neighbours(n, edges)
+        fails, n_vc = [], 0
+        for pi, p_ in enumerate(paths):
+            if p_.exc is not None:
+                fails.append(ob(f"{tag}/no-exception/{sid}", "refuted", engine="symrun", reason=f"real code raises {p_.exc!r}",
+                                cex={"fn": "history", "n": n, "edges": [list(e) for e in edges], "m": m, "signature": "raises"}))
+                break
+            r = p_.result
+            hy = p_.hyps()
+            st = r["stubs"]
+            for j in range(m):
+                k = r["eq"][j]
+                a, a2, q = Pt("p", k), Pt("pp", k), Pt("q", j)
+                o2 = [r["out"][3 * j + c] for c in range(3)]
+                used = {nm for x in o2 for nm in core.free_consts(x) if nm.startswith("junk")}
+                n_vc += 1
+                if used:
+                    fails.append(ob(f"{tag}/ensures.result_independent_of_earlier_calls[{j}]/{sid}/path{pi}", "refuted", engine="symrun",
+                                    backend="free-symbols", reason=f"mapped atom {j} depends on frames left by earlier calls: {sorted(used)[:4]}",
+                                    cex={"fn": "history", "n": n, "edges": [list(e) for e in edges], "m": m, "signature": "stale-frames"}))
+                    continue
+                F0, F1 = _frames_for(st, r["n_cb_init"], a, a2)
+                if F0 is None or F1 is None:
+                    fails.append(ob(f"{tag}/ensures.anchor_frame_recomputed_from_argument/{sid}/path{pi}", "refuted", engine="symrun",
+                                    cex={"fn": "history", "n": n, "edges": [list(e) for e in edges], "m": m, "signature": "frames"}))
+                    continue
+                pr = _proj(F0, spec.sub(q, a), SV)
+                exp = [a2[c] + _comb(F1, pr)[c] for c in range(3)]
+                v = discharge(f"{tag}/ensures.result_determined_by_construction_data_and_argument[{j}]/{sid}/path{pi}", [],
+                              z3.And(*[o2[c] == exp[c] for c in range(3)]), backends=("z3",), timeout_ms=5000, cex_builder=cexb)
+                n_vc += 1
+                if v["status"] != "discharged":
+                    fails.append(v)
+            for who, eqs_ in r["frame"].items():
+                v = discharge(f"{tag}/frame.{who}_coordinates_unchanged/{sid}/path{pi}", hy, z3.And(*eqs_), backends=("z3",), cex_builder=cexb)
+                n_vc += 1
+                if v["status"] != "discharged":
+                    fails.append(v)
+            n_vc += 1
+            if r["shares"]:
+                fails.append(ob(f"{tag}/frame.result_shares_no_coordinate_array_with_inputs/{sid}/path{pi}", "refuted", engine="symrun",
+                                backend="numpy.shares_memory", cex={"fn": "history", "n": n, "edges": [list(e) for e in edges], "m": m, "signature": "aliasing"}))
+            res, arg = r["res"], r["arg"]
+            names_ok = [a_.name for a_ in res] == [a_.name for a_ in tgt] and res.resnames == tgt.resnames and len(res) == len(tgt)
+            n_vc += 1
+            if not names_ok:
+                fails.append(ob(f"{tag}/ensures.result_has_target_names_count_and_order/{sid}/path{pi}", "refuted", engine="symrun",
+                                backend="concrete", cex={"fn": "history", "n": n, "edges": [list(e) for e in edges], "m": m, "signature": "names"}))
+        if fails:
+            out += fails
+        else:
+            out.append(ob(f"{tag}/ensures.single_step_pure_and_history_independent/{sid}", "discharged", engine="symrun", backend="z3",
+                          evaluations=n_vc, nontrivial=n_vc, sample={"n": n, "edges": edges, "m": m, "paths": len(paths), "vcs": n_vc}))
     return out
 
 
@@ -638,6 +1046,18 @@ def tasks(prop, tier, seed):
         for p in range(nparts):
             t.append((f"law/part{p}", task_law, (prop, p, nparts, tier, seed), 1500.0))
         t.append(("numeric", task_numeric_law, (prop, tier, seed), 900.0))
+    if prop == "C02":
+        nparts = 12 if tier == "quick" else 48
+        for p in range(nparts):
+            t.append((f"rigid/part{p}", task_rigid, (prop, p, nparts, tier, seed), 1500.0))
+    if prop == "C04":
+        nparts = 12 if tier == "quick" else 48
+        for p in range(nparts):
+            t.append((f"history/part{p}", task_history, (prop, p, nparts, tier, seed), 1500.0))
+    if prop == "C03":
+        nparts = 12 if tier == "quick" else 48
+        for p in range(nparts):
+            t.append((f"deform/part{p}", task_deform, (prop, p, nparts, tier, seed), 1500.0))
     return t
 
 
